@@ -20,11 +20,21 @@ enum vp_ses { S_INIT,          /* SoftHSM::isInitialised */
               S_MECH_PERMITTED,/* answer of SoftHSM::isMechanismPermitted (its real body: unit softhsm_mechperm) */
               S_SLOTID,
               S_ALLOW_MULTI, S_ALLOW_SINGLE,
+              S_MECH_PARAM_NULL, S_MECH_PARAM_LEN, /* pMechanism->pParameter == NULL / ulParameterLen (the parameter block itself is 16 symbolic bytes) */
+              S_HASHALGO,      /* session->getHashAlgo() */
+              S_OAEP_RV,       /* answer of SoftHSM::MechParamCheckRSAPKCSOAEP */
+              S_NULL_OUT,      /* an output pointer argument is NULL */
+              S_OUT_LEN,       /* *pulLen on entry */
+              S_TCOUNT,        /* ulCount of the template argument (<= VP_TMPL_MAX) */
               VP_NSES };
 enum vp_sfx { F_SETOPTYPE_N, F_SETOPTYPE_LAST, F_TAIL_N, F_HM_DESTROY_N, F_HM_DESTROY_H, F_MECHPERM_N, F_MECHPERM_OBJ, F_MECHPERM_MECH,
               F_RESETOP_N, F_SESSION_SET_N, F_HR_N, F_HR_STATE, F_HR_TOKEN, F_HR_PRIVATE, F_HW_N, F_HW_STATE, F_HW_TOKEN, F_HW_PRIVATE,
               F_CREATE_N, F_SETREAUTH_N, F_SETREAUTH_LAST, F_OUT_WRITES, VP_NSFX };
+#define VP_TMPL_MAX 2
+enum vp_tf { TF_TYPE, TF_LEN, TF_VAL, TF_NULL, VP_NTF };   /* template entry: type, ulValueLen, first value byte/ulong, pValue == NULL */
 VP_C_BEGIN
+extern CK_ULONG vp_in_tmpl[VP_TMPL_MAX * VP_NTF];
+extern unsigned char vp_in_mparam[16];
 extern CK_ULONG vp_in_ses[VP_NSES];
 extern CK_ULONG vp_g_sfx[VP_NSFX];
 CK_STATE vpi_getState(void);
@@ -34,6 +44,7 @@ CK_RV vpi_tail(void);
 VP_C_END
 #define SES(x) vp_in_ses[(int)S_##x]
 #define SFX(x) vp_g_sfx[(int)F_##x]
+#define TMPL(i, f) vp_in_tmpl[(i) * (int)VP_NTF + (int)TF_##f]
 
 #define VP_SES_STATE VP_STATE_OF(TOK(SO), TOK(USER), SES(RW))
 #define VP_SES_USER (!TOK(SO) && TOK(USER))       /* the normal user is logged in */
@@ -46,7 +57,7 @@ VP_C_END
                       CNT(SET) == 0 && CNT(DELETE) == 0 && CNT(DESTROY) == 0 && CNT(DECRYPT) == 0 && CNT(ENCRYPT) == 0 && CNT(TX_START) == 0)
 #define VP_FRESH_GHOST (VP_NO_EFFECT && SFX(MECHPERM_N) == 0 && SFX(HR_N) == 0 && SFX(HW_N) == 0 && CNT(LOG) == 0)
 #define VP_SOFTHSM_FRAME VP_ENV_FRAME, __CPROVER_object_whole(vp_g_sfx)
-#define VP_HAVOC_SOFTHSM() do { VP_HAVOC_OBJECTS(); __CPROVER_havoc_object(vp_in_ses); } while (0)
+#define VP_HAVOC_SOFTHSM() do { VP_HAVOC_OBJECTS(); __CPROVER_havoc_object(vp_in_ses); __CPROVER_havoc_object(vp_in_tmpl); __CPROVER_havoc_object(vp_in_mparam); } while (0)
 
 /* the callee contracts every SoftHSM.cpp unit relies on; bodies are the canonical implementations (used by the
  * native twin and in harness mode; under --dfcc the calls are replaced by the contract text) */
@@ -65,8 +76,12 @@ Session* vp_session(); Token* vp_token(); Slot* vp_slot(); HandleManager* vp_hm(
  * only the fields set here are read by the functions under contract */
 #define VP_MK_HSM() long hsm_store[(sizeof(SoftHSM) + 7) / 8 + 1]; SoftHSM* hsm = (SoftHSM*)(void*)&hsm_store[0]; \
 	hsm->isInitialised = SES(INIT) != 0; hsm->handleManager = vp_hm()
-#define VP_MK_MECH() CK_MECHANISM mech; mech.mechanism = SES(MECH); mech.pParameter = NULL_PTR; mech.ulParameterLen = 0; \
+#define VP_MK_MECH() CK_MECHANISM mech; unsigned char mparam[16]; memcpy(mparam, vp_in_mparam, 16); mech.mechanism = SES(MECH); \
+	mech.pParameter = SES(MECH_PARAM_NULL) ? NULL_PTR : (CK_VOID_PTR)&mparam[0]; mech.ulParameterLen = SES(MECH_PARAM_LEN); \
 	CK_MECHANISM_PTR pMech = SES(MECH_NULL) ? (CK_MECHANISM_PTR)0 : &mech
+/* the template argument: VP_TMPL_MAX entries, each value an 8-byte cell holding TF_VAL */
+#define VP_MK_TMPL() CK_ATTRIBUTE tmpl[VP_TMPL_MAX]; CK_ULONG tvals[VP_TMPL_MAX]; \
+	for (int ti = 0; ti < VP_TMPL_MAX; ti++) { tvals[ti] = TMPL(ti, VAL); tmpl[ti].type = TMPL(ti, TYPE); tmpl[ti].ulValueLen = TMPL(ti, LEN); \
+		tmpl[ti].pValue = TMPL(ti, NULL) ? NULL_PTR : (CK_VOID_PTR)&tvals[ti]; }
 #endif
-#define VP_SOFTHSM_REPLACE "vpi_getState", "vpi_haveRead", "vpi_haveWrite", "vpi_tail"
 #endif
